@@ -43,6 +43,8 @@ pub enum WPath {
     Copy,
     Set,
     FromVec4,
+    /// `From<tuple>` with glam vectors inside the tuple: (V2, s), (V3, s), (s, V3), (V2, s, s), (V2, V2), (Vec3A, f32) ...
+    Mixed,
 }
 
 #[derive(Clone, Copy, Debug, PartialEq, Eq, Hash, PartialOrd, Ord)]
@@ -75,7 +77,7 @@ pub enum RPath {
 const ALL_WPATHS: &[WPath] = &[
     WPath::Field, WPath::IndexMut, WPath::AsMutElem, WPath::AsMutWhole, WPath::With, WPath::New, WPath::Splat, WPath::FromArray,
     WPath::FromArrTrait, WPath::FromTuple, WPath::FreeFn, WPath::FromSlice, WPath::Const, WPath::Default, WPath::Copy, WPath::Set,
-    WPath::FromVec4,
+    WPath::FromVec4, WPath::Mixed,
 ];
 const ALL_RPATHS: &[RPath] = &[
     RPath::Fields, RPath::Index, RPath::ToArray, RPath::AsRef, RPath::IntoArray, RPath::IntoTuple, RPath::WriteToSlice, RPath::Display,
@@ -106,6 +108,69 @@ pub trait Paths: GlamTy + core::fmt::Debug + core::fmt::Display + PartialEq {
     fn bad_index_write(&mut self, idx: usize, v: Self::E);
     fn short_from_slice(buf: &[Self::E]) -> Self;
 }
+
+/// Tuple constructors whose members are themselves glam vectors. `k` selects the form.
+pub trait MixedCtor: GlamTy {
+    fn mixed_count() -> usize {
+        0
+    }
+    fn from_mixed(_k: usize, _v: &[Self::E]) -> Self {
+        unreachable!("type has no mixed tuple constructors")
+    }
+}
+macro_rules! mixed_none {
+    ($($T:ident),*) => { $( impl MixedCtor for $T {} )* };
+}
+macro_rules! mixed3 {
+    ($T:ident, $V2:ident) => {
+        impl MixedCtor for $T {
+            fn mixed_count() -> usize { 1 }
+            fn from_mixed(_k: usize, v: &[Self::E]) -> Self { <$T>::from(($V2::new(v[0], v[1]), v[2])) }
+        }
+    };
+}
+macro_rules! mixed4 {
+    ($T:ident, $V2:ident, $V3:ident $(, $V3A:ident)?) => {
+        impl MixedCtor for $T {
+            fn mixed_count() -> usize { 4 $( + { let _ = stringify!($V3A); 2 } )? }
+            fn from_mixed(k: usize, v: &[Self::E]) -> Self {
+                match k {
+                    0 => <$T>::from(($V3::new(v[0], v[1], v[2]), v[3])),
+                    1 => <$T>::from((v[0], $V3::new(v[1], v[2], v[3]))),
+                    2 => <$T>::from(($V2::new(v[0], v[1]), v[2], v[3])),
+                    3 => <$T>::from(($V2::new(v[0], v[1]), $V2::new(v[2], v[3]))),
+                    $( 4 => <$T>::from(($V3A::new(v[0], v[1], v[2]), v[3])),
+                       5 => <$T>::from((v[0], $V3A::new(v[1], v[2], v[3]))), )?
+                    _ => unreachable!(),
+                }
+            }
+        }
+    };
+}
+mixed_none!(Vec2, DVec2, I8Vec2, U8Vec2, I16Vec2, U16Vec2, IVec2, UVec2, I64Vec2, U64Vec2, USizeVec2, Quat, DQuat, BVec2, BVec3, BVec4, BVec3A, BVec4A);
+mixed3!(Vec3, Vec2);
+mixed3!(Vec3A, Vec2);
+mixed3!(DVec3, DVec2);
+mixed3!(I8Vec3, I8Vec2);
+mixed3!(U8Vec3, U8Vec2);
+mixed3!(I16Vec3, I16Vec2);
+mixed3!(U16Vec3, U16Vec2);
+mixed3!(IVec3, IVec2);
+mixed3!(UVec3, UVec2);
+mixed3!(I64Vec3, I64Vec2);
+mixed3!(U64Vec3, U64Vec2);
+mixed3!(USizeVec3, USizeVec2);
+mixed4!(Vec4, Vec2, Vec3, Vec3A);
+mixed4!(DVec4, DVec2, DVec3);
+mixed4!(I8Vec4, I8Vec2, I8Vec3);
+mixed4!(U8Vec4, U8Vec2, U8Vec3);
+mixed4!(I16Vec4, I16Vec2, I16Vec3);
+mixed4!(U16Vec4, U16Vec2, U16Vec3);
+mixed4!(IVec4, IVec2, IVec3);
+mixed4!(UVec4, UVec2, UVec3);
+mixed4!(I64Vec4, I64Vec2, I64Vec3);
+mixed4!(U64Vec4, U64Vec2, U64Vec3);
+mixed4!(USizeVec4, USizeVec2, USizeVec3);
 
 macro_rules! lane_get {
     ($s:expr, $l:expr, 2) => { match $l { 0 => $s.x, _ => $s.y } };
@@ -555,7 +620,7 @@ pub fn specials(e: Elem) -> Vec<u64> {
 /// The systematic part: for every single-lane write path x lane x (old, new) pair of edge values, a two-step history
 /// (whole-value write, then the single-lane write); and for every whole-value write path x lane x edge value a one-step
 /// history. Guarantees the pair grid instead of leaving it to sampling.
-pub fn grid_histories<T: Paths>() -> Vec<Vec<Step>> {
+pub fn grid_histories<T: Paths + MixedCtor>() -> Vec<Vec<Step>> {
     let n = T::N;
     let e = T::E::KIND;
     let sp = specials(e);
@@ -573,6 +638,10 @@ pub fn grid_histories<T: Paths>() -> Vec<Vec<Step>> {
         for &old in &sp {
             let mut v0 = base.clone();
             v0[lane] = old;
+            for k in 0..T::mixed_count() {
+                // the lane index of a Mixed step selects the tuple form
+                out.push(vec![Step::Write { path: WPath::Mixed, lane: k, vals: v0.clone(), off: 0 }]);
+            }
             for &w in &whole {
                 let (vals, off) = if w == WPath::FromSlice { let mut v = vec![uniq(e, 900)]; v.extend(&v0); v.push(uniq(e, 901)); (v, 1) } else { (v0.clone(), 0) };
                 out.push(vec![Step::Write { path: w, lane, vals, off }]);
@@ -590,13 +659,17 @@ pub fn grid_histories<T: Paths>() -> Vec<Vec<Step>> {
     out
 }
 
-pub fn gen_history<T: Paths>(seed: u64, ti: usize, hi: u64, with_faults: bool) -> Vec<Step> {
+pub fn gen_history<T: Paths + MixedCtor>(seed: u64, ti: usize, hi: u64, with_faults: bool) -> Vec<Step> {
     let mut rng = Rng::new(seed, "c17-history", (ti as u64) << 40 | hi);
     let n = T::N;
     let e = T::E::KIND;
     let len = rng.range(1, 32);
     let fault_rate = if with_faults { rng.range(1, 3) } else { 0 }; // of 10
-    let wp = T::wpaths();
+    let mut wpv = T::wpaths().to_vec();
+    if T::mixed_count() > 0 {
+        wpv.push(WPath::Mixed);
+    }
+    let wp = &wpv[..];
     let mut ctr = 1u64;
     // mostly values unique within the history; now and then an edge value, so that writes of +0 over -0,
     // NaN over NaN, MIN over MAX ... occur (a write that is skipped when old == new compares by value)
@@ -644,6 +717,7 @@ pub fn gen_history<T: Paths>(seed: u64, ti: usize, hi: u64, with_faults: bool) -
                 Step::Write { path, lane, vals: next(off + n + extra), off }
             }
             WPath::Const => Step::Write { path, lane: rng.below(16), vals: vec![], off: 0 },
+            WPath::Mixed => Step::Write { path, lane: rng.below(T::mixed_count()), vals: next(n), off: 0 },
             WPath::Default | WPath::Copy => Step::Write { path, lane, vals: vec![], off: 0 },
             WPath::Field | WPath::IndexMut | WPath::AsMutElem | WPath::With | WPath::Splat | WPath::Set => Step::Write { path, lane, vals: next(1), off: 0 },
             _ => Step::Write { path, lane, vals: next(n), off: 0 },
@@ -786,7 +860,7 @@ fn to_elems<T: Paths>(bits: &[u64]) -> Vec<T::E> {
 }
 
 /// Execute a history against the real object and the model. Returns the first violation.
-pub fn execute<T: Paths + V>(h: &[Step], stats: &mut Stats) -> Option<(usize, String, String)> {
+pub fn execute<T: Paths + V + MixedCtor>(h: &[Step], stats: &mut Stats) -> Option<(usize, String, String)> {
     let n = T::N;
     let name = T::NAME;
     let e = T::E::KIND;
@@ -802,7 +876,11 @@ pub fn execute<T: Paths + V>(h: &[Step], stats: &mut Stats) -> Option<(usize, St
                 let lane = *lane;
                 let r = util::catch(|| {
                     let mut o = obj;
-                    o.write(*path, lane, &v, *off);
+                    if *path == WPath::Mixed {
+                        o = T::from_mixed(lane % T::mixed_count().max(1), &v);
+                    } else {
+                        o.write(*path, lane, &v, *off);
+                    }
                     o
                 });
                 match r {
@@ -823,7 +901,7 @@ pub fn execute<T: Paths + V>(h: &[Step], stats: &mut Stats) -> Option<(usize, St
                         model = T::consts()[0].2.iter().map(|x| x.to_bits64()).collect();
                     }
                     WPath::Copy => {}
-                    _ => model.copy_from_slice(&vals[..n]),
+                    _ => model.copy_from_slice(&vals[..n]), // whole-value paths, incl. Mixed
                 }
                 stats.writes.push(*path);
             }
